@@ -6,6 +6,7 @@ observation about destructor timing that the property does not forbid.
 The schedules are kept as regression lines in `corpus/C04/fixed-findings.txt`.
 -/
 import CaddyModel.C04.Reach
+import CaddyModel.C04.Clients
 
 namespace CaddyModel.C04
 
@@ -126,5 +127,18 @@ example : ((runSched 1 [[.ls 0, .cdel 0], [.refs 0]] [0, 1, 0, 1]).out.reverse.d
 -- `sched 1 N0f;G 001`: Range skips the placeholder and returns; everything finishes
 example : let y := runSched 1 [[.ln 0 false], [.range]] [0, 0, 1]
     (allFinished y.threads, (y.out.reverse.drop 2).head?) = (true, some "1:G_/1") := by decide
+
+/-! ### why the one exclusion is needed: a release by a client that holds nothing
+
+`excluded` rules out a `Delete` by a caller that holds no reference.  That is a contract of the pool's
+CLIENTS, and client glue can break it: `acmeserver.Handler.Cleanup` called `databasePool.Delete` also for a
+handler whose `Provision` had failed before `openDatabase` (found in wave f; witness test and candidate fix
+in `.run/fixes/C04-n-acmeserver-cleanup.*`; the reverse proxy's `Cleanup` had the same shape and was repaired
+earlier).  What then happens is this run: config A holds the database; the rejected config B's cleanup
+releases a reference it never took; A's value is destructed while A still remembers it. -/
+theorem release_by_non_holder_destructs_held_value :
+    let y := runSched 1 [[.ln 0 true], [.del 0]] [0, 0, 1, 1, 1]
+    (y.clean, holdCount y.threads 0, (y.g.ent 0).destructed, y.stuck) = (false, 1, 1, false) := by
+  decide
 
 end CaddyModel.C04
